@@ -332,3 +332,68 @@ func sweepCases() {
 		id++
 	}
 }
+
+// sweepExtreme: degrees of freedom of the pooled / paired / one-sample tests (integers n-1,
+// n1+n2-2 for samples of up to ~1000 values) and Welch-type non-integers, at tiny and huge |t|
+// (t*t underflowing to 0, overflowing to +Inf, and everything between), both through TDist.CDF and
+// through the public tests with all three alternatives. Panics, NaN and p-values outside [0,1]
+// are crash lines.
+func sweepExtreme() {
+	maxNu := hx.N(300, 2400)
+	ts := []float64{5e-324, 1e-300, 1e-200, 1.5e-162, 1e-160, 1e-100, 1e-30, 1e-12, 1e-9, 1e-5,
+		30, 1e3, 1e6, 1e10, 1e50, 1e100, 1.3e154, 1.4e154, 1e155, 1e200, 1e308, math.Inf(1)}
+	alts := []stats.LocationHypothesis{stats.LocationLess, stats.LocationDiffers, stats.LocationGreater}
+	chunk := 100
+	for c := 0; c*chunk < maxNu; c++ {
+		if c%nshards != shard {
+			continue
+		}
+		hx.Printf("case %d kind=sweep nulo=%s nuhi=%s n=%d tag=sweep+extreme\n", id, fb(float64(c*chunk+1)), fb(float64((c+1)*chunk)), chunk)
+		calls := 0
+		for k := c*chunk + 1; k <= (c+1)*chunk && k <= maxNu; k++ {
+			for _, nu := range []float64{float64(k), float64(k) + 0.37, float64(k) * 1.0001} {
+				d := stats.TDist{V: nu}
+				for _, t := range ts {
+					for _, sg := range []float64{1, -1} {
+						x := sg * t
+						func() {
+							defer func() {
+								if e := recover(); e != nil {
+									hx.Printf("crash %d TDist{%v}.CDF(%v): %v\n", id, nu, x, e)
+								}
+							}()
+							v := d.CDF(x)
+							calls++
+							if !(v >= 0 && v <= 1) || (x > 0 && v < 0.5) || (x < 0 && v > 0.5) {
+								hx.Printf("crash %d TDist{%v}.CDF(%v) = %v on the wrong side / outside [0,1]\n", id, nu, x, v)
+							}
+						}()
+					}
+				}
+			}
+			// through the public API: one-sample test with n = k+1 values, |t| = |m|*sqrt(n)/sqrt(v)
+			n := float64(k + 1)
+			for _, m := range []float64{1e-300, 1e-150, 1e-9, 1, 1e9, 1e150, 1e300} {
+				for _, v := range []float64{1e-300, 1, 1e300} {
+					for _, alt := range alts {
+						func() {
+							defer func() {
+								if e := recover(); e != nil {
+									hx.Printf("crash %d OneSampleTTest(n=%v,m=%v,v=%v): %v\n", id, n, m, v, e)
+								}
+							}()
+							res, err := stats.OneSampleTTest(tri{n, m, v}, 0, alt)
+							calls++
+							if err != nil || !(res.P >= 0 && res.P <= 1) {
+								hx.Printf("crash %d OneSampleTTest(n=%v,m=%v,v=%v,alt=%d): P=%v err=%v\n", id, n, m, v, int(alt), res, err)
+							}
+						}()
+					}
+				}
+			}
+		}
+		hx.Printf("sobs %d conv=ok\n", id)
+		hx.Printf("note %d calls=%d\n", id, calls)
+		id++
+	}
+}
